@@ -207,6 +207,7 @@ def execute(scenario: Dict[str, Any], sched_spec: Optional[Dict[str, Any]] = Non
             finally:
                 run.rec("run_returned")
                 res.world_info["loop_closed_by_mosaik"] = loop.is_closed()
+                res.world_info["close_vtime"] = getattr(loop, "close_vtime", None) if loop.is_closed() else None
                 res.world_info["deadlock_seen"] = loop.deadlocked
                 res.world_info["livelock_seen"] = loop.livelocked
                 try:
